@@ -351,6 +351,118 @@ def r_val_strength_rows(model, rep, rows, rule_id="R-VAL-STRENGTH"):
                facts={"found": [repr(a) for a in found][:3]})
 
 
+def r_label_lang(model, rep):
+    """the label patterns accept only <supported name>-N.M and accept every documented name"""
+    from ..model import RegexConst
+    from .oracle_tables import LABEL_NAMES_MIN
+    import re as _re
+    names = model.const("composeinfo", "LABEL_NAMES")
+    lst = model.const("composeinfo", "LABEL_RE_LIST")
+    if isinstance(lst, RegexConst):
+        lst = [lst]
+    pats = []
+    for x in lst:
+        if isinstance(x, RegexConst):
+            pats.append(x.pattern)
+        elif isinstance(x, str):
+            pats.append(x)
+        else:
+            raise AnalysisError("LABEL_RE_LIST element %r is not a pattern" % (x,))
+    missing = [n for n in LABEL_NAMES_MIN if n not in names]
+    rep.ob("R-LABEL-LANG", "LABEL_NAMES:documented-values", not missing, site="productmd/composeinfo.py",
+           msg="" if not missing else "milestone label names lost: %s" % missing)
+    oracle = r"^(?:%s)-\d+\.\d+$" % "|".join(_re.escape(n) for n in sorted(names, key=lambda n: (-len(n), n)))
+    U = rx.universe(pats + [oracle], extra="".join(names) + "-1.0")
+    single = [c for c in U if c != 10]
+    O = rx.PNFA(oracle, U)
+    P = [rx.PNFA(p, U) for p in pats]
+    for p, pn in zip(pats, P):
+        inc, w, n = rx.included(pn, O, single)
+        rep.ob("R-LABEL-LANG", "LABEL_RE_LIST:%s" % p[:40], inc, site="productmd/composeinfo.py",
+               msg="" if inc else "label pattern %r accepts %r, which is not <supported name>-<major>.<minor>" % (p, w))
+    for nme in LABEL_NAMES_MIN:
+        word = "%s-1.0" % nme
+        ok = any(rx.accepts(pn, word) for pn in P)
+        rep.ob("R-LABEL-LANG", "label:%s" % nme, ok, site="productmd/composeinfo.py",
+               msg="" if ok else "the documented label %r is rejected" % word)
+    # verify_label: None passes, otherwise some pattern of the list must match, else ValueError
+    f = model.function("composeinfo", "verify_label")
+    cx = facts.fctx(model, f)
+    lab = ("param", cx.params[0])
+    m = [ev for ev in cx.events if ev.kind == "call" and ev.value[1][0] == "attr" and ev.value[1][2] == "match" and ev.value[2] == (lab,)
+         and ev.loops and ev.loops[-1][1] == ("global", "LABEL_RE_LIST")]
+    r = [ev for ev in cx.events if ev.kind == "raise" and ev.value[0] == "call" and ev.value[1] == ("global", "ValueError")]
+    ok = len(m) == 1 and len(r) == 1 and not m[0].guards[1:] and not r[0].loops
+    if ok:
+        # the raise is conditioned on "no pattern matched" only (besides label is None -> return)
+        pos = [g for g in r[0].guards if g[1]]
+        ok = len(pos) == 1 and pos[0][0][0] == "unary" and pos[0][0][1] == "not"
+    rep.ob("R-LABEL-LANG", "verify_label", ok, site=cx.site(f.node),
+           msg="" if ok else "verify_label must try label against every pattern of LABEL_RE_LIST with .match and raise ValueError when none matches")
+
+
+def r_assert_helpers(model, rep):
+    """the four assertion helpers of MetadataBase mean what the validator tables assume"""
+    S = lambda cx: ("param", cx.selfname)
+    # _assert_not_blank: raise ValueError iff not getattr(self, field)
+    f = model.own_method("common.MetadataBase", "_assert_not_blank")
+    cx = facts.fctx(model, f)
+    val = ("call", ("global", "getattr"), (S(cx), ("param", cx.params[1])), ())
+    r = [ev for ev in cx.events if ev.kind == "raise"]
+    ok = len(r) == 1 and r[0].value[0] == "call" and r[0].value[1] == ("global", "ValueError") \
+        and list(r[0].guards) == [(("unary", "not", val), True)] and not [ev for ev in cx.events if ev.kind == "return" and ev.value != ("const", None)]
+    rep.ob("R-ASSERT-HELPERS", "MetadataBase._assert_not_blank", ok, site=cx.site(f.node),
+           msg="" if ok else "_assert_not_blank must raise ValueError exactly when the field value is falsy (empty string, empty "
+                             "container, 0, None)")
+    # _assert_value: raise ValueError iff value not in expected_values
+    f = model.own_method("common.MetadataBase", "_assert_value")
+    cx = facts.fctx(model, f)
+    val = ("call", ("global", "getattr"), (S(cx), ("param", cx.params[1])), ())
+    r = [ev for ev in cx.events if ev.kind == "raise"]
+    ok = len(r) == 1 and r[0].value[0] == "call" and r[0].value[1] == ("global", "ValueError") \
+        and list(r[0].guards) == [(("cmp", ("not in",), (val, ("param", cx.params[2]))), True)]
+    rep.ob("R-ASSERT-HELPERS", "MetadataBase._assert_value", ok, site=cx.site(f.node),
+           msg="" if ok else "_assert_value must raise ValueError exactly when the field value is not in the table")
+    # _assert_type: return iff isinstance(value, one of expected types); else TypeError
+    f = model.own_method("common.MetadataBase", "_assert_type")
+    cx = facts.fctx(model, f)
+    val = ("call", ("global", "getattr"), (S(cx), ("param", cx.params[1])), ())
+    r = [ev for ev in cx.events if ev.kind == "raise"]
+    rets = [ev for ev in cx.events if ev.kind == "return"]
+    ok = len(r) == 1 and r[0].value[0] == "call" and r[0].value[1] == ("global", "TypeError") and not r[0].loops and not [g for g in r[0].guards if g[1]]
+    okr = False
+    if len(rets) == 1 and rets[0].loops and rets[0].loops[-1][1] == ("param", cx.params[2]):
+        el = ("elem", rets[0].loops[-1][1], rets[0].loops[-1][0])
+        okr = list(rets[0].guards) == [(("call", ("global", "isinstance"), (val, el), ()), True)]
+    else:
+        # isinstance(value, tuple(expected_types)) form
+        g = [gd for gd in (r[0].guards if r else [])]
+        okr = any(T.contains(gd[0], lambda x: x[0] == "call" and x[1] == ("global", "isinstance") and x[2][0] == val) for gd in g)
+        ok = len(r) == 1 and r[0].value[0] == "call" and r[0].value[1] == ("global", "TypeError")
+    rep.ob("R-ASSERT-HELPERS", "MetadataBase._assert_type", ok and okr, site=cx.site(f.node),
+           msg="" if ok and okr else "_assert_type must raise TypeError unless the field value is an instance of one of the expected types")
+    # _assert_matches_re: return iff some pattern matches (pattern.match / re.match); else ValueError
+    f = model.own_method("common.MetadataBase", "_assert_matches_re")
+    cx = facts.fctx(model, f)
+    val = ("call", ("global", "getattr"), (S(cx), ("param", cx.params[1])), ())
+    r = [ev for ev in cx.events if ev.kind == "raise" and not ev.loops]
+    rets = [ev for ev in cx.events if ev.kind == "return" and ev.loops]
+    ok = len(r) == 1 and r[0].value[0] == "call" and r[0].value[1] == ("global", "ValueError") and not [g for g in r[0].guards if g[1]]
+    okm = bool(rets)
+    for rt in rets:
+        el = ("elem", rt.loops[-1][1], rt.loops[-1][0])
+        conds = [g for g in rt.guards if g[0][0] != "exc"]
+        okm = okm and rt.loops[-1][1] == ("param", cx.params[2]) and len(conds) == 1 and conds[0][1] and conds[0][0] in (
+            ("call", ("attr", el, "match"), (val,), ()), ("call", ("global", "re.match"), (el, val), ()))
+    rep.ob("R-ASSERT-HELPERS", "MetadataBase._assert_matches_re", ok and okm, site=cx.site(f.node),
+           msg="" if ok and okm else "_assert_matches_re must return exactly when some pattern .match()es the field value and raise ValueError otherwise")
+    for cls in facts.metadata_classes(model):
+        for h in facts.ASSERT_HELPERS:
+            if h in cls.methods:
+                rep.ob("R-ASSERT-HELPERS", "%s.%s(override)" % (cls.qname, h), False, site=cls.module.site(cls.methods[h]),
+                       msg="assertion helper overridden in a subclass")
+
+
 def r_val_cover(model, rep):
     """every public data attribute of a metadata class is asserted on by some validator (or exempt with a reason)"""
     for cls in facts.metadata_classes(model):
@@ -407,7 +519,7 @@ def r_val_dead(model, rep):
     rep.floor("R-VAL-DEAD", 8)
 
 
-def r_validate_all(model, rep):
+def r_validate_all(model, rep, strict=True):
     """MetadataBase.validate runs every _validate* method, no early exit"""
     f = model.own_method("common.MetadataBase", "validate")
     cx = facts.fctx(model, f)
@@ -457,21 +569,52 @@ def r_validate_all(model, rep):
     # no subclass overrides validate()
     for cls in facts.metadata_classes(model):
         if "validate" in cls.methods:
+            if not strict:
+                raise AnalysisError("%s overrides validate(): what a validate() call checks can no longer be read off the validator "
+                                    "tables, the loading-side rules cannot be decided" % cls.qname)
             rep.ob("R-VALIDATE-ALL", "%s.validate(override)" % cls.qname, False, site=cls.module.site(cls.methods["validate"]),
-                   msg="validate() is overridden; the per-class validator tables no longer describe what runs")
+                   msg="validate() is overridden; the per-class validator tables no longer describe what runs (a skipped or "
+                       "memoised validation lets an invalid object be written)")
+
+
+class DumpValidates(PathRule):
+    """flags: 'V' validate() called, 'S' serialize() called, 'B' document written (build_file) or delegated to another
+    dump(); 'bad' build_file reached without V and S"""
+
+    def __init__(self, selfname):
+        self.selfname = selfname
+
+    def effect(self, eff, st):
+        if eff.kind == "call" and isinstance(eff.node.func, ast.Attribute):
+            c = eff.node
+            name = c.func.attr
+            recv_self = isinstance(c.func.value, ast.Name) and c.func.value.id == self.selfname
+            if name == "validate" and recv_self:
+                return [st | {"V"}], []
+            if name == "serialize" and recv_self:
+                return [st | {"S"}], []
+            if name == "build_file" and recv_self:
+                if "V" in st and "S" in st:
+                    return [st | {"B"}], []
+                return [st | {"B", "bad"}], []
+            if name in ("dump", "dumps") and (recv_self or (dotted(c.func.value) or "").endswith("MetadataBase")
+                                              or (isinstance(c.func.value, ast.Call) and dotted(c.func.value.func) == "super")):
+                return [st | {"B", "delegated"}], []
+        return [st], []
 
 
 def r_dump_validates(model, rep):
-    """dump() validates and serialises before anything is written; dumps() returns dump's text"""
+    """on every normal path dump() validates and serialises before the document is written (or delegates to another
+    dump()); dumps() goes through dump()"""
     for q in ("common.MetadataBase", "treeinfo.TreeInfo"):
         f = model.own_method(q, "dump")
-        cx = facts.fctx(model, f)
-        v = [ev for ev in cx.calls("validate", on_self=True) if not T.guard_tests(ev)]
-        s = [ev for ev in cx.calls("serialize", on_self=True) if not T.guard_tests(ev)]
-        b = [ev for ev in cx.calls("build_file", on_self=True) if not T.guard_tests(ev)]
-        ok = bool(v and s and b) and v[0].seq < b[0].seq and s[0].seq < b[0].seq
-        rep.ob("R-DUMP-VALIDATES", "%s.dump" % q, ok, site=cx.site(f.node),
-               msg="" if ok else "dump() must call self.validate() and self.serialize() unconditionally before build_file()")
+        selfname = f.node.args.args[0].arg
+        ex = Walker(DumpValidates(selfname)).run(f.node, {frozenset()})
+        states = list(ex.normal) + [s_ for s_, _ in ex.ret]
+        ok = bool(states) and all("B" in st and "bad" not in st for st in states)
+        rep.ob("R-DUMP-VALIDATES", "%s.dump" % q, ok, site=f.module.site(f.node),
+               msg="" if ok else "on some path dump() writes the document without having called self.validate() and self.serialize() "
+                                 "first (or returns without writing)")
     f = model.own_method("common.MetadataBase", "dumps")
     cx = facts.fctx(model, f)
     ok = bool([ev for ev in cx.calls("dump", on_self=True) if not T.guard_tests(ev)])
@@ -730,92 +873,132 @@ def r_hdr_re(model, rep):
 # ---------------------------------------------------------------------------------------------------------
 # C18
 # ---------------------------------------------------------------------------------------------------------
-class DumpOrder(PathRule):
-    """state flag 'O': the destination is open for writing"""
+DESTRUCTIVE = ("os.unlink", "os.remove", "os.rename", "os.replace", "os.truncate", "shutil.move", "shutil.rmtree", "shutil.copy",
+               "shutil.copyfile", "os.rmdir")
 
-    def __init__(self, model, fref, opens):
-        self.model = model
-        self.fref = fref
-        self.opens = opens        # ids of With nodes that open the destination for writing
-        self.bad = []
-        self.ltypes = model.local_types(fref)
 
-    def enter_with(self, node, st):
-        if id(node) in self.opens:
-            return st | {"O"}
-        return st
-
-    def exit_with(self, node, st):
-        if id(node) in self.opens:
-            return st - {"O"}
-        return st
-
-    def effect(self, eff, st):
-        if "O" in st and eff.kind == "call":
-            targets, exact = self.model.resolve_call(self.fref, eff.node, self.ltypes)
-            for t in targets:
-                why = None
-                if t.node.name == "validate":
-                    why = "validate()"
-                elif self.model.may_raise_validation(t):
-                    why = "%s may raise %s" % (t.qname, "/".join(sorted(set(self.model.summaries()["may_raise"][t]) & {"ValueError", "TypeError"})))
-                if why:
-                    self.bad.append((eff.node.lineno, ast.unparse(eff.node.func), why))
-        return [st], []
+def _opens_for_writing_call(c):
+    d = dotted(c.func) or ""
+    if d.split(".")[-1] in ("open_file_obj", "open"):
+        mode = c.args[1] if len(c.args) > 1 else None
+        for k in c.keywords:
+            if k.arg == "mode":
+                mode = k.value
+        if isinstance(mode, ast.Constant) and isinstance(mode.value, str) and any(ch in mode.value for ch in "wax+"):
+            return True
+    return False
 
 
 def opens_for_writing(with_node):
     for it in with_node.items:
         c = it.context_expr
-        if isinstance(c, ast.Call):
-            d = dotted(c.func) or ""
-            if d.split(".")[-1] in ("open_file_obj", "open"):
-                mode = None
-                if len(c.args) > 1:
-                    mode = c.args[1]
-                for k in c.keywords:
-                    if k.arg == "mode":
-                        mode = k.value
-                if isinstance(mode, ast.Constant) and isinstance(mode.value, str) and any(ch in mode.value for ch in "wax+"):
-                    return True
+        if isinstance(c, ast.Call) and _opens_for_writing_call(c):
+            return True
     return False
 
 
+def touch_summary(model):
+    """functions that (transitively, through exactly resolved calls) open a file for writing/appending or remove /
+    rename / truncate one"""
+    direct = set()
+    for f in model.all_functions():
+        if f.qname == "common.open_file_obj":
+            continue        # forwards the caller's mode: judged at the call site
+        for node in ast.walk(f.node):
+            if isinstance(node, ast.Call):
+                if _opens_for_writing_call(node) or (dotted(node.func) or "") in DESTRUCTIVE:
+                    direct.add(f)
+    s = model.summaries()["callees_exact"]
+    touch = set(direct)
+    changed = True
+    while changed:
+        changed = False
+        for f, cs in s.items():
+            if f not in touch and cs & touch:
+                touch.add(f)
+                changed = True
+    return touch
+
+
+class DestSafe(PathRule):
+    """state flags  'T' the destination has been opened for writing / created / removed on this path
+                    'X' a validation error is being handled (inside an except clause reached from a raising call)"""
+
+    def __init__(self, model, fref, touch):
+        self.model = model
+        self.fref = fref
+        self.touch = touch
+        self.bad = []
+        self.ltypes = model.local_types(fref)
+
+    def enter_with(self, node, st):
+        if opens_for_writing(node):
+            return st | {"T"}
+        return st
+
+    def enter_handler(self, handler, st):
+        return st | {"X"}
+
+    def _touches(self, c):
+        if _opens_for_writing_call(c) or (dotted(c.func) or "") in DESTRUCTIVE:
+            return "%s()" % (dotted(c.func) or "open")
+        targets, exact = self.model.resolve_call(self.fref, c, self.ltypes)
+        for t in targets:
+            if exact and t in self.touch and t.qname != self.fref.qname:
+                return "%s()" % t.qname
+        return None
+
+    def effect(self, eff, st):
+        if eff.kind != "call":
+            return [st], []
+        c = eff.node
+        raising = []
+        targets, exact = self.model.resolve_call(self.fref, c, self.ltypes)
+        may = None
+        for t in targets:
+            if t.node.name == "validate":
+                may = "validate()"
+            elif self.model.may_raise_validation(t):
+                may = "%s may raise ValueError/TypeError" % t.qname
+        if may:
+            if "T" in st:
+                self.bad.append((c.lineno, "%s() runs after the destination was opened/created -- %s%s" % (
+                    ast.unparse(c.func), may, " (+%d more callees)" % (len(targets) - 1) if len(targets) > 1 else "")))
+            raising.append((st, "ValueError"))
+        touch = self._touches(c)
+        normal = st
+        if touch:
+            if "X" in st:
+                self.bad.append((c.lineno, "%s touches the destination while a validation error is being handled" % touch))
+            normal = st | {"T"}
+        return [normal], raising
+
+
 def r_dump_order(model, rep):
-    """nothing that can raise a validation error runs while the destination is open for writing"""
-    # make validate() itself a raising function for the may-raise summary
+    """nothing that can raise a validation error runs after the destination was opened for writing / created, and
+    nothing removes or re-opens the destination while a validation error is handled"""
+    touch = touch_summary(model)
     n = 0
     for f in model.all_functions():
         withs = [w for w in ast.walk(f.node) if isinstance(w, ast.With) and opens_for_writing(w)]
-        if not withs:
+        calls_touch = any(isinstance(nd, ast.Call) and (_opens_for_writing_call(nd) or (dotted(nd.func) or "") in DESTRUCTIVE)
+                          for nd in ast.walk(f.node))
+        calls_dump = f in touch
+        if not (withs or calls_touch or calls_dump):
+            continue
+        if f.qname in ("common.open_file_obj",):
             continue
         n += 1
-        rule = DumpOrder(model, f, set(id(w) for w in withs))
+        rule = DestSafe(model, f, touch)
         Walker(rule).run(f.node, {frozenset()})
         ok = not rule.bad
-        by_call = {}
-        for line, call, why in sorted(set(rule.bad)):
-            by_call.setdefault((line, call), []).append(why)
-        rep.ob("R-DUMP-ORDER", f.qname, ok, site=f.module.site(withs[0]),
-               msg="" if ok else "while the destination is open for writing: " + "; ".join(
-                   "line %s %s() -- %s%s" % (k[0], k[1], v[0], " (+%d more callees)" % (len(v) - 1) if len(v) > 1 else "")
-                   for k, v in sorted(by_call.items())),
-               facts={"with_blocks": len(withs), "raising_callees": sorted(set(b[2] for b in rule.bad))[:40]})
+        rep.ob("R-DUMP-ORDER", f.qname, ok, site=f.module.site(withs[0] if withs else f.node),
+               msg="" if ok else "; ".join("line %s: %s" % b for b in sorted(set(rule.bad))[:4]),
+               facts={"with_blocks_opening_for_write": len(withs)})
     if n < 2:
-        raise AnalysisError("vacuity guard: %d functions open a destination for writing (floor 2)" % n)
-    # raw open(..., 'w') outside a with statement would escape the rule: count them
-    for f in model.all_functions():
-        for node in ast.walk(f.node):
-            if isinstance(node, ast.Call) and (dotted(node.func) or "").split(".")[-1] in ("open", "open_file_obj"):
-                inwith = any(isinstance(w, ast.With) and any(it.context_expr is node for it in w.items) for w in ast.walk(f.node))
-                mode = node.args[1] if len(node.args) > 1 else None
-                writing = isinstance(mode, ast.Constant) and isinstance(mode.value, str) and any(ch in mode.value for ch in "wax+")
-                nonconst = mode is not None and not isinstance(mode, ast.Constant)
-                if f.qname == "common.open_file_obj":
-                    continue      # the helper itself forwards the caller's mode
-                if (writing or nonconst) and not inwith:
-                    rep.ob("R-DUMP-ORDER", "%s:open-outside-with" % f.qname, False, site=f.module.site(node),
-                           msg="destination opened for writing outside a with-statement; ordering cannot be decided")
+        raise AnalysisError("vacuity guard: %d functions touch a destination (floor 2)" % n)
+    # a destination opened for writing outside a with-statement in a function that may raise afterwards is covered by
+    # the same rule (the open call itself sets 'T')
 
 
 def _install_validate_summary(model):
@@ -857,7 +1040,12 @@ def check_c06(model, rep, tier):
     r_dump_validates(model, rep)
     r_val_cover(model, rep)
     r_val_strength(model, rep, tier)
+    r_label_lang(model, rep)
+    r_assert_helpers(model, rep)
     r_val_dead(model, rep)
+    # converse, enumeration part only: every id the library itself creates passes the id validator
+    from .regexes import r_cid_validator, compose_suffix_ladder
+    r_cid_validator(model, rep, compose_suffix_ladder(model)[0])
     rep.count("classes", len(facts.metadata_classes(model)))
     rep.count("validator_methods", sum(len(facts.validator_methods(c)) for c in facts.metadata_classes(model)))
 
@@ -879,10 +1067,16 @@ def check_c07(model, rep, tier):
     r_loads(model, rep)
     r_hdr_gate(model, rep, tier)
     r_hdr_re(model, rep)
-    r_validate_all(model, rep)
+    r_validate_all(model, rep, strict=False)
     r_val_strength(model, rep, tier)
+    r_label_lang(model, rep)
+    r_assert_helpers(model, rep)
     r_val_dead(model, rep)
     r_required(model, rep)
+    # "Images.add applied to every loaded image (arch and identity checks)"
+    from .sources import r_add_scan, r_load_via_add
+    r_add_scan(model, rep, tier)
+    r_load_via_add(model, rep)
 
 
 @register("C18")
